@@ -741,7 +741,7 @@ PROPS = {
         "assumptions": ["the theorem is about Renamer::rename_with_raw_names; the ParsedPacket wrapper re-parses its result (accepted by the theorem) and asserts the EDNS summary is unchanged - that assert is covered by correspondence (C08 scripts), not by this theorem"],
     },
     "C08": {
-        "module": "DnsModel.Theorems.C08Seq", "theorems": ["Dns.C08.run_total", "Dns.C08.step_total", "Dns.C08.run_inv", "Dns.C08.step_inv", "Dns.C08.inv_start", "Dns.C08.consistent_view", "Dns.C08.consistent_counts", "Dns.C08.after_decompression", "Dns.C08.recompute_consistent", "Dns.C08.iter_uncompress_consistent", "Dns.C08.first_touch_consistent", "Dns.C08.insert_answer_consistent", "Dns.C08.insert_authority_consistent", "Dns.C08.insert_additional_consistent", "Dns.C08.delete_consistent", "Dns.C08.set_ttl_consistent", "Dns.C08.set_ip_consistent", "Dns.C08.set_name_consistent", "Dns.C08.header_consistent", "Dns.C08.rename_fresh", "Dns.C08.question_read", "Dns.C08.PlainObj.pointerFree", "Dns.EdnsOK.matches_parse", "Dns.PlainObj.parse_info", "Dns.ednsOf_of_run", "Dns.ednsOK_replace", "Dns.ednsOK_remove", "Dns.ednsOK_remove_opt", "Dns.C08.source_counts_tie"],
+        "module": "DnsModel.Theorems.C08Seq", "theorems": ["Dns.C08.run_total", "Dns.C08.step_total", "Dns.C08.run_inv", "Dns.C08.step_inv", "Dns.C08.inv_start", "Dns.C08.consistent_view", "Dns.C08.consistent_counts", "Dns.C08.after_decompression", "Dns.C08.recompute_consistent", "Dns.C08.iter_uncompress_consistent", "Dns.C08.first_touch_consistent", "Dns.C08.insert_answer_consistent", "Dns.C08.insert_authority_consistent", "Dns.C08.insert_additional_consistent", "Dns.C08.delete_consistent", "Dns.C08.set_ttl_consistent", "Dns.C08.set_ip_consistent", "Dns.C08.set_name_consistent", "Dns.C08.header_consistent", "Dns.C08.rename_fresh", "Dns.C08.question_read", "Dns.C08.PlainObj.pointerFree", "Dns.EdnsOK.matches_parse", "Dns.PlainObj.parse_info", "Dns.ednsOf_of_run", "Dns.ednsOK_replace", "Dns.ednsOK_remove", "Dns.ednsOK_remove_opt", "Dns.C08.source_counts_tie", "Dns.C08.source_insert_rr"],
         "families": [{"name": "script-boundary", "quick": 0, "thorough": 0, "fixed": True}, {"name": "rename-script", "quick": 0, "thorough": 0, "fixed": True}, {"name": "script-rawinsert", "quick": 0, "thorough": 0, "fixed": True}, {"name": "script", "quick": 2500, "thorough": 100000}],
         "oracle": oracle_c08, "nontrivial": nontrivial_script, "shrink": False,
         "rule": "scripts of 1-6 macro operations (open/advance/act/observe/advance, header setters, text insertion, question insertion, rename, recompute, cache reads) over accepted packets in 4 layouts with/without OPT and over empty(); state observed after every operation; non-trivial = distinct scripts with at least one successful mutating operation",
@@ -752,7 +752,7 @@ PROPS = {
                         "excluded by hypothesis (known findings, by design): question insertion/deletion (KF1, KF4), OPT as the target of set-name/set-TTL (KF5), clearing QR with answers present (KF3); in-place setters on a still-compressed object (KF2) are covered by the script correspondence only"],
     },
     "C09": {
-        "module": "DnsModel.Theorems.C09", "theorems": ["Dns.C09.insert_exact_answer", "Dns.C09.insert_exact_authority", "Dns.C09.insert_exact_additional", "Dns.C09.delete_exact", "Dns.C09.set_ttl_exact", "Dns.C09.set_ip_exact", "Dns.C09.set_name_exact", "Dns.C09.header_exact", "Dns.C09.first_touch", "Dns.C09.set_name_flagged", "Dns.C09.delete_flagged", "Dns.PlainObj.replace_at", "Dns.resize_write", "Dns.piece_shape", "Dns.C09.source_counts_tie"],
+        "module": "DnsModel.Theorems.C09", "theorems": ["Dns.C09.insert_exact_answer", "Dns.C09.insert_exact_authority", "Dns.C09.insert_exact_additional", "Dns.C09.delete_exact", "Dns.C09.set_ttl_exact", "Dns.C09.set_ip_exact", "Dns.C09.set_name_exact", "Dns.C09.header_exact", "Dns.C09.first_touch", "Dns.C09.set_name_flagged", "Dns.C09.delete_flagged", "Dns.PlainObj.replace_at", "Dns.resize_write", "Dns.piece_shape", "Dns.C09.source_counts_tie", "Dns.C09.source_insert_rr"],
         "families": [{"name": "script-boundary", "quick": 0, "thorough": 0, "fixed": True}, {"name": "script-refusals", "quick": 0, "thorough": 0, "fixed": True}, {"name": "script-rawinsert", "quick": 0, "thorough": 0, "fixed": True}, {"name": "script", "quick": 2500, "thorough": 100000}],
         "oracle": oracle_c09, "nontrivial": nontrivial_script, "shrink": False,
         "rule": "same scripts as C08; after every operation the decoded message is compared with the message before plus exactly the specified change",
@@ -763,7 +763,7 @@ PROPS = {
                         "excluded by hypothesis (known findings, by design): OPT as the target of set-name/set-TTL (KF5), delete/insert on the question (KF1, KF4), clearing QR with answers present (KF3); in-place setters on a still-compressed object (KF2) and rename/recompute at object level are covered by C07 / C08.rename_fresh and the script correspondence"],
     },
     "C10": {
-        "module": "DnsModel.Theorems.C10", "theorems": ["Dns.C10.insert_size_limit", "Dns.C10.insert_failure_plain", "Dns.C10.insert_too_large", "Dns.C10.delete_void_unchanged", "Dns.C10.set_name_invalid", "Dns.C10.set_name_arg_total", "Dns.C10.set_name_void", "Dns.C10.set_ip_failure", "Dns.C10.rename_failure", "Dns.C10.set_name_too_large", "Dns.C10.source_counts_tie"],
+        "module": "DnsModel.Theorems.C10", "theorems": ["Dns.C10.insert_size_limit", "Dns.C10.insert_failure_plain", "Dns.C10.insert_too_large", "Dns.C10.delete_void_unchanged", "Dns.C10.set_name_invalid", "Dns.C10.set_name_arg_total", "Dns.C10.set_name_void", "Dns.C10.set_ip_failure", "Dns.C10.rename_failure", "Dns.C10.set_name_too_large", "Dns.C10.source_counts_tie", "Dns.C10.source_insert_rr"],
         "families": [{"name": "script-big", "quick": 0, "thorough": 0, "fixed": True}, {"name": "script-rawinsert", "quick": 0, "thorough": 0, "fixed": True}, {"name": "script-fail", "quick": 2500, "thorough": 100000}, {"name": "script", "quick": 500, "thorough": 20000}],
         "oracle": oracle_c10, "nontrivial": lambda c, a: "err:" in a, "shrink": False,
         "rule": "scripts biased to failing arguments (ill-formed / over-long names, tombstone cursors, malformed and out-of-range record texts, second question, overflowing renames), exact-limit sweeps (8192 +- for insertions, also on packets whose OPT advertises 512..65535 bytes; 65535 +- for owner growth); non-trivial = distinct scripts in which at least one operation failed",
